@@ -74,7 +74,9 @@ struct Holder : Base {
   }
   void freq(const Line& t, Out& o) override {              // 6 r et has_thr thr
     frequent_items_error_type et = t.at(2) == 1 ? NO_FALSE_NEGATIVES : NO_FALSE_POSITIVES;
-    auto rows = t.at(3) != 0 ? s.get_frequent_items(et, (W)t.at(4)) : s.get_frequent_items(et);
+    I thr = t.at(4);
+    if (t.at(3) == 2) { thr += (I)s.get_maximum_error(); if (thr < 0) thr = 0; }   // threshold relative to the maximum error
+    auto rows = t.at(3) != 0 ? s.get_frequent_items(et, (W)thr) : s.get_frequent_items(et);
     struct Row { Enc e; I est, lb, ub; };
     std::vector<Row> v;
     o.has_flt = true;
@@ -85,6 +87,11 @@ struct Holder : Base {
     std::sort(v.begin(), v.end(), [](const Row& a, const Row& b) { return a.est != b.est ? a.est > b.est : a.e < b.e; });
     o.R((I)v.size()); o.R((I)s.get_maximum_error());
     for (auto& r : v) { put_item(o, r.e); o.R(r.est); o.R(r.lb); o.R(r.ub); }
+    // for the oracle only: the tracked items (item, counter) at the time of the call, after the estimates in returned order
+    std::vector<std::pair<Enc, I>> act;
+    for (auto it : s.map) act.push_back(std::make_pair(enc(it.first), (I)it.second));
+    std::sort(act.begin(), act.end());
+    for (auto& a : act) { o.F((I)a.first.size()); for (I x : a.first) o.F(x); o.F(a.second); }
   }
   // R = 1, image length, image bytes (the serialized image is public output; the model produces the same bytes)
   Base* roundtrip(bool stream, Out& o) override {
